@@ -260,7 +260,40 @@ class Interp:
         return cur
 
     def _narrow_from_test(self, test, env, taken):
-        pass
+        """After branching on `test` with outcome `taken`, narrow Optional-typed local names."""
+        if isinstance(test, ast.UnaryOp) and isinstance(test.op, ast.Not):
+            return self._narrow_from_test(test.operand, env, not taken)
+        if isinstance(test, ast.BoolOp):
+            if isinstance(test.op, ast.And) and taken:
+                for x in test.values:
+                    self._narrow_from_test(x, env, True)
+            if isinstance(test.op, ast.Or) and not taken:
+                for x in test.values:
+                    self._narrow_from_test(x, env, False)
+            return
+        name = None
+        nonnull = None
+        if isinstance(test, ast.Compare) and len(test.ops) == 1 and isinstance(test.left, ast.Name):
+            c = test.comparators[0]
+            if isinstance(c, ast.Constant) and c.value is None:
+                if isinstance(test.ops[0], (ast.Is, ast.Eq)):
+                    name, nonnull = test.left.id, not taken
+                elif isinstance(test.ops[0], (ast.IsNot, ast.NotEq)):
+                    name, nonnull = test.left.id, taken
+        elif isinstance(test, ast.Name):
+            name, nonnull = test.id, taken
+        if name and nonnull and name in env.locals:
+            v = env.locals[name]
+            if isinstance(v, V) and isinstance(v.ty, TOpt):
+                nv = sym.opt_val(v)
+                nv.origin = v.origin
+                env.locals[name] = nv
+
+    def unopt(self, v, node=None, what="None where a value is required"):
+        if isinstance(v, V) and isinstance(v.ty, TOpt):
+            self.fail(z3.Not(sym.opt_is_none(v)), "TypeError", what, node)
+            return sym.opt_val(v)
+        return v
 
     def e_IfExp(self, node, env):
         c = self.evalv(node.test, env)
@@ -269,9 +302,15 @@ class Interp:
             a = self.evalv(node.body, env)
             b = self.evalv(node.orelse, env)
             return sym.ite(t, a, b)
-        if self.ctx.branch(t):
-            return self.eval(node.body, env)
-        return self.eval(node.orelse, env)
+        d = self.ctx.branch(t)
+        saved = dict(env.locals)
+        self._narrow_from_test(node.test, env, d)
+        try:
+            return self.eval(node.body if d else node.orelse, env)
+        finally:
+            for k, v0 in saved.items():
+                if env.locals.get(k) is not v0 and isinstance(v0, V) and isinstance(v0.ty, TOpt) and isinstance(env.locals.get(k), V) and env.locals[k].ty == v0.ty.inner:
+                    env.locals[k] = v0
 
     def e_Tuple(self, node, env):
         vals = [self.evalv(x, env) for x in node.elts]
